@@ -1,4 +1,22 @@
+use std::io::Write;
 fn main() {
     // libthread_db looks up the ps_* callbacks in the executable
     println!("cargo:rustc-link-arg=-Wl,--export-dynamic");
+    // one module per property sub-command: every src/props/<name>.rs exposes `pub fn run(args: &[String])`
+    println!("cargo:rerun-if-changed=src/props");
+    let dir = std::path::Path::new(&std::env::var("CARGO_MANIFEST_DIR").unwrap()).join("src/props");
+    let mut names: Vec<String> = std::fs::read_dir(&dir).unwrap().filter_map(|e| {
+        let n = e.unwrap().file_name().into_string().unwrap();
+        n.strip_suffix(".rs").map(String::from)
+    }).collect();
+    names.sort();
+    let out = std::path::Path::new(&std::env::var("OUT_DIR").unwrap()).join("dispatch.rs");
+    let mut f = std::fs::File::create(out).unwrap();
+    for n in &names {
+        writeln!(f, "#[path = {:?}] pub mod {n};", dir.join(format!("{n}.rs"))).unwrap();
+    }
+    writeln!(f, "pub fn dispatch(cmd: &str, args: &[String]) -> bool {{ match cmd {{").unwrap();
+    for n in &names { writeln!(f, "  {n:?} => {n}::run(args),").unwrap(); }
+    writeln!(f, "  _ => return false }} true }}").unwrap();
+    writeln!(f, "pub const COMMANDS: &[&str] = &{names:?};").unwrap();
 }
